@@ -1,5 +1,6 @@
 import Cel.Drv.Util
 import Cel.Model.XlateValue
+import Cel.Model.XlateCel
 import Cel.Gen.XlateTables
 /-!
 Line protocol for C19 (tokens separated by single blanks).  Strings travel as `x` followed by the
@@ -14,6 +15,7 @@ hex code points separated by `.` (`x61.5c.62`; the empty string is `x`).
   emit <key> <op> <vt|-> <value>      -> ok <str> | raise ValueError | raise KeyError     value_to_cel
   dec <op> <vt|-> <now> <r> <v>       -> true|false|none            decision the emitted clause denotes
   rel <op> <vt|-> <now> <r> <v>       -> true|false|none            Spec.rel on Spec.operands
+  cel <str>                           -> cel|notcel|nolex           XlateCel.lexCel + Cel.Grammar.parse
 
 values (emit): S<str> | I<int> | B0 | B1 | LS <n> <str>… | LI <n> <int>…
 values (dec/rel): S<str> | I<int> | B0 | B1 | N | L <n> <atom>…
@@ -207,6 +209,11 @@ def handle : Handler
       | some (v, []) => showOptB (specRel op (optVt vt) now r v)
       | _ => "bad-op")
     | _, _ => "bad-op"
+  | ["cel", s] => match decStr s with
+    | some t => (match XlateCel.lexCel t with
+      | none => "nolex"
+      | some ts => if (Cel.Grammar.parse ts).isSome then "cel" else "notcel")
+    | none => "bad-op"
   | _ => "bad-op"
 
 end Cel.Drv.C19
